@@ -88,11 +88,14 @@ def catalogue(rng, tier='quick'):
         add('ShiftLeft', [('a', wsh), ('b', 3)], [('r', wsh)], lambda t, i, o: P.ShiftLeft(t, 'x', i['a'], i['b'], o['r']))
         add('ShiftRight', [('a', wsh), ('b', 3)], [('r', wsh)], lambda t, i, o: P.ShiftRight(t, 'x', i['a'], i['b'], o['r']))
         # sequential
-        rv = rng.choice([None, 0])
+        rv = rng.choice([None, 0, 1, (1 << w) - 1, rng.randrange(1 << w)])
+        rv2 = (rv or 0) + 1
         add('Reg', [('d', w)], [('q', w)], lambda t, i, o: P.Reg(t, 'x', i['d'], o['q']))
         add('RegE', [('d', w), ('e', 1)], [('q', w)], lambda t, i, o: P.Reg(t, 'x', i['d'], o['q'], enable=i['e']))
         add('RegR', [('d', w), ('r', 1)], [('q', w)], lambda t, i, o, rv=rv: P.Reg(t, 'x', i['d'], o['q'], reset=i['r'], reset_value=rv))
         add('RegER', [('d', w), ('e', 1), ('r', 1)], [('q', w)], lambda t, i, o, rv=rv: P.Reg(t, 'x', i['d'], o['q'], enable=i['e'], reset=i['r'], reset_value=rv))
+        add('RegPair', [('d', w), ('e', 1)], [('q1', w), ('q2', w)],
+            lambda t, i, o, rv=rv, rv2=rv2: (P.Reg(t, 'x', i['d'], o['q1'], enable=i['e'], reset_value=rv), P.Reg(t, 'y', i['d'], o['q2'], enable=i['e'], reset_value=rv2)))
         add('Counter', [('reset', 1), ('inc', 1)], [('q', w)], lambda t, i, o: P.Counter(t, 'x', i['reset'], i['inc'], o['q']))
         add('TReg', [('t', 1), ('e', 1)], [('q', 1)], lambda t, i, o: P.TReg(t, 'x', i['t'], o['q'], enable=i['e']))
         dl = rng.randint(1, 3)
@@ -108,7 +111,7 @@ def random_top(rng, n_blocks=8):
     outs = [('out%d' % k, rng.randint(1, 8)) for k in range(n_out)]
     info = {}
     def body(t, i, o):
-        _, _, inf = designs.build_random(rng, n_blocks=n_blocks, parent=t, in_wires=[i[n] for n, _ in ins], out_wires=[o[n] for n, _ in outs], shuffle=True, plain_reset=True)
+        _, _, inf = designs.build_random(rng, n_blocks=n_blocks, parent=t, in_wires=[i[n] for n, _ in ins], out_wires=[o[n] for n, _ in outs], shuffle=True, plain_reset='nonneg')
         info.update(inf)
     hw, top = make_top('RandTop', ins, outs, body)
     return hw, top, ins, outs, info
